@@ -1,7 +1,10 @@
 package props
 
 import (
+	"bufio"
+	"bytes"
 	"fmt"
+	"io"
 
 	"verif/gen"
 	"verif/link"
@@ -24,7 +27,24 @@ func runC02(c *sim.Ctx) *sim.Violation {
 	}
 	w := link.NewWriter(c)
 	var werr error
-	if pi := sim.Guard(func() { _, werr = p.WriteTo(w) }); pi != nil {
+	var out io.Writer = w
+	var bw *bufio.Writer
+	if t.Bool(1, 4) {
+		// the program writes through a bufio.Writer that has been in use for a
+		// while (its internal buffer holds old bytes), and flushes afterwards
+		bw = bufio.NewWriterSize(&sliceWriter{}, []int{64, 4096, 65536}[t.Int(3)])
+		bw.Write(bytes.Repeat([]byte{0xA5, 0x5A, 0xFF}, 30000)[:1+t.Int(80000)])
+		bw.Flush()
+		bw.Reset(w)
+		out = bw
+		c.Count("probe.written-through-a-used-bufio.Writer")
+	}
+	if pi := sim.Guard(func() {
+		_, werr = p.WriteTo(out)
+		if bw != nil && werr == nil {
+			werr = bw.Flush()
+		}
+	}); pi != nil {
 		return sim.V("C02/"+typ+"/panic-in-WriteTo:"+pi.Site, "%s\n%s", pi.Value, a.Canon())
 	}
 	if werr != nil {
